@@ -393,6 +393,8 @@ def freelist_record(I, entry, t, x=None):
         rec["x_stamp_pre_range"] = list(st.bounds.get(("st", x), (None, None)))
     if rec["returned"] is not None:
         k = rec["returned"]
+        # the id handed out must be the slot's *current* id (index and generation)
+        rec["returned_id_is_current"] = bool(models.values_equal(I, st, t.value.get("stamp"), I.read_node_field(st, k, "stamp")))
         rec["returned_fresh"] = st.nodes[k].fresh
         rec["returned_stamp_range"] = list(st.term_bounds(view.stamp_term(k)))
         rec["returned_links"] = [view.post(k, f) for f in LINKS]
@@ -633,6 +635,7 @@ def unary_record(I, entry, t):
             rec["model_diff"] = [(a, str(b), str(c)) for a, b, c in m.diff()]
             rec["model_touched"] = len(m.M)
             rec["returned"] = k
+            rec["returned_id_is_current"] = bool(models.values_equal(I, st, t.value.get("stamp"), I.read_node_field(st, k, "stamp")))
     if entry in ("detach", "remove") and st.nodes[x].live0 and t.kind in ("return", "loophead"):
         m = spec.Model(view)
         m.op(entry, x)
